@@ -82,7 +82,8 @@ fn main() {
         }
         "decode" => {
             let n = arg(&args, "--n").and_then(|s| s.parse().ok()).unwrap_or(600);
-            let r = decodelevel::run(seed, n, &driver, &out);
+            let exhaustive = arg(&args, "--exhaustive").and_then(|s| s.parse::<usize>().ok()).unwrap_or(0) > 0;
+            let r = decodelevel::run(seed, n, &driver, &out, exhaustive);
             eprintln!("decode: {} evaluations, {} disagreements, {} violations", r["evaluations"], r["disagreements"].as_array().unwrap().len(), r["violations"].as_array().unwrap().len());
         }
         "memo" => {
